@@ -47,7 +47,7 @@ def verify(rd, wt):
 
 
 def save(pid, wt):
-    for k in range(1, 6):
+    for k in range(1, 13):
         rd = os.path.join(wt, "refac", str(k))
         if not os.path.exists(os.path.join(rd, "patch.diff")):
             continue
